@@ -86,7 +86,8 @@ def checkFirst (c : Cfg) (s : Scan) (k : Key) (start stop : Int) (ids : List Nat
 
 def checkLate (c : Cfg) (s : Scan) (k : Key) (start stop : Int) (ids : List Nat) : Scan :=
   let s1 := if 0 < c.lateness then s else fail s "late-update-without-allowance"
-  match s.firsts.find? (fun f => f.1 == k && f.2.1 = start && f.2.2.1 = stop) with
+  -- the LATEST delivery with these bounds: after a manual flush a new session of the key may have the bounds of a flushed one
+  match s.firsts.reverse.find? (fun f => f.1 == k && f.2.1 = start && f.2.2.1 = stop) with
   | none => fail s1 "late-update-of-undelivered-session"
   | some f =>
     let prev := f.2.2.2
@@ -102,7 +103,7 @@ def checkLate (c : Cfg) (s : Scan) (k : Key) (start stop : Int) (ids : List Nat)
           | none => d
         | none => fail s2 "late-update-unknown-row"
       | none => s2
-    { s3 with firsts := s3.firsts.map (fun g => if g.1 == k && g.2.1 = start && g.2.2.1 = stop then (k, start, stop, ids) else g) }
+    { s3 with firsts := s3.firsts.map (fun g => if g == f then (k, start, stop, ids) else g) }
 
 def step (c : Cfg) (s : Scan) : Ev → Scan
   | .arr _ _ none => s
